@@ -581,6 +581,46 @@ func (c *Ctx) MapFat() *Doc {
 		d.Security = &sec
 		c.Tag("fat:and-requirement")
 	}
+	// keys that differ only in letter case (a case-insensitive sort would leave their
+	// relative order to map iteration)
+	for i := 0; i < 3; i++ {
+		base := c.CompName("Twin", "twin")
+		cs.Schemas[base] = &Schema{Type: "object", Properties: map[string]*Schema{"upper": {Type: "string"}}}
+		cs.Schemas[strings.ToLower(base[:1])+base[1:]] = &Schema{Type: "object", Properties: map[string]*Schema{"lower": {Type: "integer"}}}
+		c.Tag("fat:case-twin-keys")
+	}
+	// a path whose operations list several header credentials as alternatives (their
+	// names end up in the CORS header list)
+	{
+		if cs.SecuritySchemes == nil {
+			cs.SecuritySchemes = map[string]*SecurityScheme{}
+		}
+		var alts []map[string][]string
+		haveBearer := false
+		for n, sch := range cs.SecuritySchemes {
+			if sch.Type == "http" && sch.Scheme == "bearer" {
+				haveBearer = true
+				alts = append(alts, map[string][]string{n: {}})
+			}
+		}
+		if !haveBearer {
+			n := c.PlainName("sec", "corsbearer")
+			cs.SecuritySchemes[n] = &SecurityScheme{Type: "http", Scheme: "bearer"}
+			alts = append(alts, map[string][]string{n: {}})
+		}
+		for i := 0; i < 3; i++ {
+			n := c.PlainName("sec", "corskey")
+			cs.SecuritySchemes[n] = &SecurityScheme{Type: "apiKey", In: "header", Name: "X-" + strings.Title(c.PlainName("cred", "corskeyname"))}
+			alts = append(alts, map[string][]string{n: {}})
+		}
+		sort.Slice(alts, func(i, j int) bool { return fmt.Sprint(alts[i]) < fmt.Sprint(alts[j]) })
+		op1, op2 := MinimalOp(), MinimalOp()
+		op1.Security = &alts
+		rev := append([]map[string][]string{}, alts...)
+		op2.Security = &rev
+		d.Paths["/"+c.PlainName("cors", "corspath")] = &PathItem{Get: op1, Put: op2}
+		c.Tag("fat:cors-credential-headers")
+	}
 	// component parameters / headers / responses / request bodies with >=4 entries
 	for i := 0; i < 4; i++ {
 		if cs.Parameters == nil {
